@@ -47,6 +47,8 @@ type worker struct {
 
 // Pool of build workers.
 type Pool struct {
+	Exe     string   // worker binary ("" = this executable)
+	Env     []string // extra environment for workers
 	mu      sync.Mutex
 	idle    []*worker
 	sem     chan struct{}
@@ -70,13 +72,17 @@ func (p *Pool) get() (*worker, error) {
 		return w, nil
 	}
 	p.mu.Unlock()
-	exe, err := os.Executable()
-	if err != nil {
-		return nil, err
+	exe := p.Exe
+	if exe == "" {
+		var err error
+		exe, err = os.Executable()
+		if err != nil {
+			return nil, err
+		}
 	}
 	cmd := exec.Command(exe, "worker")
 	cmd.Stderr = io.Discard
-	cmd.Env = append(os.Environ(), "GOPHERJS_SKIP_VERSION_CHECK=true")
+	cmd.Env = append(append(os.Environ(), "GOPHERJS_SKIP_VERSION_CHECK=true"), p.Env...)
 	in, _ := cmd.StdinPipe()
 	outp, _ := cmd.StdoutPipe()
 	if err := cmd.Start(); err != nil {
